@@ -471,7 +471,7 @@ func c02Accept(c *Ctx) {
 				if _, f := core.FieldAddrName(fa); f == "GetConfigForClient" {
 					for _, r2 := range *fa.Referrers() {
 						if st, ok := r2.(*ssa.Store); ok {
-							if gc, _ := core.CallResult(core.Strip(st.Val)); gc != nil && strings.HasSuffix(core.CalleeName(gc.Common()), ".getTlsConfigForClient") {
+							if gc, _ := core.CallResult(core.Strip(st.Val)); gc != nil && isListenerCallbackFactory(c, gc.Common()) {
 								okCfg = true
 							}
 						}
@@ -520,4 +520,15 @@ func c02WaiverSites(c *Ctx, G *ssa.Function, rule string) []*ssa.BasicBlock {
 		r.Unk(rule, gname+" waiver site", p.Pos(G.Pos()), "no WithAlpnProtoPrefix call found in the listener closure")
 	}
 	return fetchBlocks
+}
+
+
+// isListenerCallbackFactory: the call invokes the listener's GetConfigForClient
+// factory (resolved as an anchor, so a renamed factory is still recognised).
+func isListenerCallbackFactory(c *Ctx, cc *ssa.CallCommon) bool {
+	f := c.P.Func("protocol", "(*InterceptingListener).getTlsConfigForClient")
+	if f == nil {
+		f, _ = c.P.FuncRenamed("protocol", "(*InterceptingListener).getTlsConfigForClient")
+	}
+	return f != nil && cc.StaticCallee() == f
 }
